@@ -58,7 +58,8 @@ def generate(rng, tier, index):
     r_rpc = common.pick_rpc(rng, n) if rng.random() < 0.8 else w_rpc
     spell = "same"
     if rng.random() < 0.25 and wp["backend"] in ("local", "file"):
-        spell = rng.choice(["file", "slash"] if wp["backend"] == "local" else ["bare", "slash"])
+        spell = rng.choice(["file", "slash", "relative"] if wp["backend"] == "local"
+                           else ["bare", "slash", "relative"])
     if producer == "cli-relocated":
         spell = "same"
     sels = []
